@@ -78,7 +78,7 @@ theorem buildX_noFuel (pts : List PType) (fs : List XFlow) (home : String) (d : 
     have hinc : ∀ tgt s', (match findFlow fs tgt with
         | none => Except.error XErr.flowRef
         | some tf =>
-          if (stack.contains tgt || tgt == home) = true then Except.error XErr.flowRef
+          if (stack.contains tgt || tgt == home) = true then Except.error XErr.refCycle
           else buildX pts fs home d fuel (tgt :: stack) tgt s' (tf.conns d)) ≠ .error .fuel := by
       intro tgt s'
       cases hf : findFlow fs tgt with
